@@ -166,7 +166,8 @@ def run(tier):
             hist.append(("same_machine_again", a, a))
         for a in ("conf", "mfi", "ms"):
             hist.append(("same_cfg_dict_again", a, a))
-        for x, a in [("bil20", "bil23"), ("bil23", "bil20"), ("conf", "plain"), ("cbca_val", "plain"), ("mfi", "conf"), ("plain", "cbca_val"), ("cbca_val", "mfi")]:
+        for x, a in [("bil20", "bil23"), ("bil23", "bil20"), ("conf", "plain"), ("cbca_val", "plain"), ("mfi", "conf"), ("plain", "cbca_val"), ("cbca_val", "mfi"),
+                     ("sgm_val", "cbca_val"), ("cbca_val", "sgm_val")]:
             hist.append(("after_other_pipeline_same_machine", x, a))
             hist.append(("after_other_pipeline_other_machine", x, a))
         for shape, x, a in hist:
